@@ -142,17 +142,18 @@ Proof.
         destruct (ekind e); cbn; discriminate.
     + (* denied *)
       pose proof (pw_deny_inv _ _ _ _ _ _ (I t) E) as D.
-      set (x2 := if match ekind e with KLog => negb (counted (th s t)) | _ => false end then _ else _).
-      assert (D2 : TInv x2 (issued s t) (delivered s t)).
-      { unfold x2. destruct (match ekind e with KLog => negb (counted (th s t)) | _ => false end);
-          [apply TInv_failc|]; exact D. }
-      destruct (c_dropping K).
-      * destruct (ekind e) eqn:Ek; (split;
-          [intro u; cbn [issued delivered th set_th]; upd_cases u t; [apply TInv_pend; exact D2|apply I]
-          |intros u e'; cbn [th set_th]; upd_cases u t; [cbn; try discriminate; intro H; inversion H; subst; exact Hpos|apply P]]).
-      * split.
-        -- intro u. cbn [issued delivered th set_th]. upd_cases u t; [apply TInv_pend; exact D2|apply I].
-        -- intros u e'. cbn [th set_th]. upd_cases u t; [cbn; intro H; inversion H; subst; exact Hpos|apply P].
+      assert (Fin : forall (s' : st) x2, th s' = th s -> issued s' = issued s -> delivered s' = delivered s ->
+                TInv x2 (issued s t) (delivered s t) -> pend x2 = pend (th s t) ->
+                forall p c, (forall e', p = Some e' -> 0 < esz e') ->
+                Inv (set_th s' (upd (th s') t (set_thr_pend x2 p c))) /\ PInv (set_th s' (upd (th s') t (set_thr_pend x2 p c)))).
+      { intros s' x2 E1 E2 E3 T2 Hp2 p c Hpc. split.
+        - intro u. cbn [issued delivered th set_th]. rewrite E1, E2, E3. upd_cases u t; [apply TInv_pend; exact T2|apply I].
+        - intros u e'. cbn [th set_th]. rewrite E1. upd_cases u t; [cbn; apply Hpc|apply P]. }
+      assert (Hpe : forall e', Some e = Some e' -> 0 < esz e') by (intros e' H; inversion H; subst; exact Hpos).
+      assert (Hpn : forall e', @None ev = Some e' -> 0 < esz e') by (intros; discriminate).
+      destruct (match ekind e with KLog => negb (counted (th s t)) | _ => false end);
+        destruct (c_dropping K); try destruct (ekind e);
+        (apply Fin; try reflexivity; auto; try (apply TInv_failc); exact D).
   - (* FWaitFlush *)
     destruct (wflush (th s t)); [|split; assumption].
     destruct (existsb (N.eqb n) (flags s)); [|split; assumption].
@@ -287,6 +288,21 @@ Proof.
   cbn in *. auto.
 Qed.
 
+Lemma report_failures_good s l : Good s -> Good (report_failures K s l).
+Proof.
+  revert s. induction l as [|u r IH]; intros s G; cbn [report_failures]; [exact G|].
+  destruct (failc (th s u) =? 0); [apply IH; exact G|]. apply IH.
+  eapply same_core_good with (s := set_th s (upd (th s) u (set_thr_failc (th s u) 0))); try reflexivity.
+  apply good_thr; [exact G|apply TInv_failc, (proj1 G)|reflexivity].
+Qed.
+
+Lemma report_failures_keeps s l u : qev (th s u) = [] /\ tbuf (th s u) = [] ->
+  qev (th (report_failures K s l) u) = [] /\ tbuf (th (report_failures K s l) u) = [].
+Proof.
+  revert s. induction l as [|v r IH]; intros s H; cbn [report_failures]; [exact H|].
+  destruct (failc (th s v) =? 0); [apply IH; exact H|]. apply IH. cbn. upd_cases u v; [cbn|]; exact H.
+Qed.
+
 Lemma find_dead_good s l : Good s -> Good (fst (find_dead s l)) /\
   (forall u, snd (find_dead s l) = Some u ->
      qev (th (fst (find_dead s l)) u) = [] /\ tbuf (th (fst (find_dead s l)) u) = []) /\
@@ -309,8 +325,13 @@ Lemma cleanup_loop_good fuel : forall s, Good s -> Good (cleanup_loop K fuel s).
 Proof.
   induction fuel as [|f IH]; intros s G; cbn [cleanup_loop]; [exact G|].
   destruct (find_dead_good s (cache s) G) as (G1 & Hd & Hi & Hdl).
-  destruct (find_dead s (cache s)) as [s1 [u|]]; cbn [fst snd] in *; [|exact G1].
-  apply IH. destruct (Hd u eq_refl) as [Hq Ht]. destruct G1 as [I1 P1]. split.
+  destruct (find_dead s (cache s)) as [s0 [u|]]; cbn [fst snd] in *; [|exact G1].
+  apply IH. destruct (Hd u eq_refl) as [Hq Ht].
+  set (s1 := if c_report_first K then report_failures K s0 (cache s0) else s0).
+  assert (G1' : Good s1) by (unfold s1; destruct (c_report_first K); [apply report_failures_good|]; exact G1).
+  assert (Hq1 : qev (th s1 u) = [] /\ tbuf (th s1 u) = []).
+  { unfold s1. destruct (c_report_first K); [|split; assumption]. apply report_failures_keeps; split; assumption. }
+  clear Hq Ht. destruct Hq1 as [Hq Ht]. destruct G1' as [I1 P1]. split.
   - intro t. cbn. upd_cases t u; [|apply I1].
     destruct (I1 u) as [Hc Hs Hr Ha Hp Hx]. rewrite Hq, Ht in Hc. cbn in Hc. rewrite app_nil_r in Hc.
     constructor; cbn; auto. now rewrite app_nil_r. apply SInv_init.
@@ -344,17 +365,13 @@ Proof.
       destruct (dispatch s e (lsinks (lg s (elg e)))) as [s' threw]. cbn [fst] in *.
       destruct threw; cbn; auto. }
   destruct C1 as (A & B & Cc).
-  assert (G3 : Good {| clock := clock s1; th := upd (th s1) u (set_thr_tbuf (th s1 u) (tl (tbuf (th s1 u))) (tcap (th s1 u)));
-                       registered := registered s1; newflag := newflag s1; invalid_cnt := invalid_cnt s1; cache := cache s1;
-                       pc := pc s1; tsnow := tsnow s1; lg := lg s1; sk := sk s1; nsinks := nsinks s1; nloggers := nloggers s1;
-                       flags := flags s1; obs := obs s1; issued := issued s1;
-                       delivered := upd (delivered s1) u (delivered s1 u ++ [eid e]); plog := plog s1 ++ [e] |}).
-  { destruct G as [I P]. rewrite A, B, Cc. split.
-    - intro t. cbn. upd_cases t u; [|apply I].
+  assert (G3 : Good (pop_event s1 u e)).
+  { destruct G as [I P]. unfold pop_event. rewrite A. split.
+    - intro t. cbn [th issued delivered]. rewrite B, Cc. upd_cases t u; [|apply I].
       destruct (I u) as [Hc Hs Hrr Ha Hp Hx]. rewrite Hr in *. constructor; cbn; auto.
       + rewrite Hc. cbn. now rewrite <- app_assoc.
       + intros; discriminate.
-    - intros t e'. cbn. upd_cases t u; [cbn; apply P|apply P]. }
+    - intros t e'. cbn [th]. upd_cases t u; [cbn; apply P|apply P]. }
   destruct (ekind e); cbn [fst]; try exact G3.
   eapply same_core_good; [| | |apply (cleanup_ctx_good _ G3)]; reflexivity.
 Qed.
@@ -371,14 +388,6 @@ Lemma all_empty_scan_good s l acc : Good s -> Good (fst (all_empty_scan s l acc)
 Proof.
   revert s acc. induction l as [|u r IH]; intros s acc G; cbn [all_empty_scan]; [exact G|].
   pose proof (good_qempty s u G) as G1. destruct (q_empty (th s u)) as [x1 e]. cbn [fst] in *. apply IH. exact G1.
-Qed.
-
-Lemma report_failures_good s l : Good s -> Good (report_failures K s l).
-Proof.
-  revert s. induction l as [|u r IH]; intros s G; cbn [report_failures]; [exact G|].
-  destruct (failc (th s u) =? 0); [apply IH; exact G|]. apply IH.
-  eapply same_core_good with (s := set_th s (upd (th s) u (set_thr_failc (th s u) 0))); try reflexivity.
-  apply good_thr; [exact G|apply TInv_failc, (proj1 G)|reflexivity].
 Qed.
 
 Lemma bstep_good s : Good s -> Good (bstep K s).
